@@ -224,6 +224,25 @@ func subC05(out string, seed uint64, tier string, arg string) {
 					break
 				}
 			}
+			// the process's local time zone is part of the environment: the answer must not depend on it
+			if rep.Evaluations%3 == 0 {
+				savedLocal := time.Local
+				for _, z := range []*time.Location{time.FixedZone("west", -11*3600), time.FixedZone("east", 13*3600+45*60)} {
+					time.Local = z
+					c := v.reparse()
+					if c == nil {
+						continue
+					}
+					rsZ, pZ := lintObj(c, g)
+					if pZ == "" && rsZ != nil {
+						if d, ok := sameResults(rs1, rsZ); !ok {
+							rep.violate(Violation{"C05", fmt.Sprintf("linting %s with the process's local time zone set to %s gives a different result: %s", v.Name, z, d), "timezone:" + lintNameOf(d), replayOf(v, map[string]interface{}{"diff": d, "zone": z.String()})})
+						}
+					}
+				}
+				time.Local = savedLocal
+				rep.count("timezone-variants")
+			}
 			// history: other objects, filtered registries, another configuration (on its own registry)
 			for k := 0; k < 3 && len(history) > 0; k++ {
 				h := history[rng.Intn(len(history))].reparse()
